@@ -1,9 +1,93 @@
-"""End-to-end part of C06 (real Server on real threads). Filled in below."""
+"""End-to-end part of C06: ServerStop.tla (protocol across server loop, accept thread, workers) model-checked by TLC;
+scenarios on a real Server (real threads, sockets, signals in a child process) recorded and judged by TLC against
+ServerStopTrace.tla (predicate mode)."""
+import json
+import os
+
+import vlib
+
+MOD = "server/ServerStop.tla"
+TMOD = "server/ServerStopTrace.tla"
+NEGS = {"NEG_stop_ForcedReach.cfg": ["NEG_ForcedNeverCompletesWithLive"],       # reachability: forced completes with live conns
+        "NEG_stop_GracefulSkipsAwait.cfg": ["C06_GracefulWaits"],
+        "NEG_stop_CompleteBeforeJoin.cfg": ["C06_NoDispatchAfterCompletion", "Steps"],
+        "NEG_stop_TermIsForced.cfg": ["C06_SignalKinds"],
+        "NEG_stop_SecondStopHangs.cfg": ["temporal"]}
+
+
+def signature(rec, pred):
+    return "%s:%s" % (pred, rec.get("e"))
+
+
+def scenarios(ctx):
+    sc = vlib.read_ndjson(os.path.join(vlib.ROOT, "corpus", "e2e_stop_quick.ndjson"))
+    if not ctx.quick:
+        sc += vlib.read_ndjson(os.path.join(vlib.ROOT, "corpus", "e2e_stop_thorough.ndjson"))
+        # seeded variations: release instants relative to the stop and to the 1 s ticks
+        for n in range(12):
+            conns = ctx.rng.randint(1, 3)
+            rel = []
+            for c in range(conns):
+                at = ctx.rng.choice(["before_stop", "never", ctx.rng.randint(0, 2400)])
+                rel.append({"c": c, "at": at})
+            sc.append({"name": "seeded-%d" % n, "workers": ctx.rng.randint(1, 2), "shutdown_s": ctx.rng.randint(1, 2),
+                       "conns": conns, "stop": ctx.rng.choice(["graceful", "forced"]), "release": rel,
+                       "second_stop": ctx.rng.random() < 0.3, "drop_future": ctx.rng.random() < 0.2,
+                       "pause_first": ctx.rng.random() < 0.2, "late_connect": ctx.rng.random() < 0.5})
+    return sc
+
+
+def validate(ctx, scs, tag):
+    sfile = os.path.join(ctx.workdir, "%s-scenarios.ndjson" % tag)
+    tfile = os.path.join(ctx.workdir, "%s-trace.ndjson" % tag)
+    vlib.write_ndjson(sfile, scs)
+    r = vlib.run_harness("vsrv", ["e2e", "--scenarios", sfile, "--trace", tfile], timeout=600)
+    summ = json.loads(r.stdout.strip().splitlines()[-1])
+    runs = vlib.split_runs(vlib.read_ndjson(tfile))
+    accepted, rejects = vlib.validate_runs(TMOD, "Trace_C06_e2e.cfg", runs, ctx.workdir, tag=tag, max_rejects=6)
+    return summ, runs, accepted, rejects
 
 
 def run(ctx):
-    pass
+    for cfg, note in ([("MC_stop_quick.cfg", "exhaustive")] if ctx.quick else
+                      [("MC_stop_quick.cfg", "exhaustive"), ("MC_stop_thorough.cfg", "exhaustive, 3 connections/worker, timeout 3")]):
+        res = ctx.model_check(MOD, cfg, workers=8)
+        vlib.require_ok(res, cfg)
+        ctx.add_tlc(cfg, res, note)
+    for cfg in (["LIVE_stop_w1.cfg"] if ctx.quick else ["LIVE_stop_w1.cfg", "LIVE_stop.cfg"]):
+        res = ctx.model_check(MOD, cfg, workers=4)
+        vlib.require_ok(res, cfg)
+        ctx.add_tlc(cfg, res, "liveness: every stop future and the Server future resolve (weak fairness)")
+    for cfg, exp in NEGS.items():
+        ctx.expect_neg(MOD, cfg, exp)
+    scs = scenarios(ctx)
+    summ, runs, accepted, rejects = validate(ctx, scs, "c06e2e")
+    # a real-time rejection is repeated before it is believed (scheduling hiccups must not raise alarms)
+    confirmed = []
+    for (ri, pos, pred) in rejects:
+        summ2, runs2, acc2, rej2 = validate(ctx, [scs[ri]], "c06e2e-retry%d" % ri)
+        if rej2:
+            confirmed.append((ri, runs2[0][min(rej2[0][1], len(runs2[0]) - 1)], rej2[0][2], runs2[0]))
+        else:
+            vlib.log("e2e scenario %s: rejection not reproduced on retry (ignored)" % scs[ri].get("name"))
+            accepted += 1
+    ctx.cov["traces_validated_against_impl"] += accepted
+    ctx.cov["evaluations"] += len(scs)
+    ctx.cov["distinct_nontrivial"] += sum(1 for s in scs if s.get("conns", 1) > 0 or s.get("signal"))
+    ctx.cov["e2e_scenarios"] = len(scs)
+    ctx.cov["e2e_events"] = summ["steps"]
+    ctx.cov["samples"].append({"e2e_scenario": scs[0], "events": [r.get("raw") for r in runs[0][1:]]})
+    for (ri, rec, pred, run) in confirmed:
+        ctx.violation(signature(rec, pred), "end-to-end: predicate %s is false at event %s of scenario %s" % (
+            pred, json.dumps(rec.get("raw")), scs[ri].get("name")), {"mode": "e2e", "scenario": scs[ri], "trace": run})
 
 
 def replay(ctx, path):
-    pass
+    vlib.cargo_build(["vsrv"])
+    rp = json.load(open(path))["replay"]
+    summ, runs, accepted, rejects = validate(ctx, [rp["scenario"]], "c06e2e-replay")
+    ctx.cov.update({"evaluations": 1, "distinct_nontrivial": 1, "states": 1, "transitions": 1,
+                    "traces_validated_against_impl": accepted, "samples": [runs[0][-1]]})
+    for (ri, pos, pred) in rejects:
+        rec = runs[ri][min(pos, len(runs[ri]) - 1)]
+        ctx.violation(signature(rec, pred), "replay (real time; not bit-reproducible): %s false at %s" % (pred, json.dumps(rec.get("raw"))), rp)
